@@ -13,6 +13,7 @@
 # limitations under the License.
 
 from .list import ConfigList
+from .append import AppendNode
 from ..namespace import namespace, staticproperty
 
 from collections.abc import Sequence
@@ -57,7 +58,7 @@ class ExtendNode(ConfigList):
 
         if isinstance(node, list): # (not hasattr(node, 'extend'): a mapping answers with its child of that name)
             node.extend(self)
-            into.ayns.remove_node(path)
+            AppendNode._take_out(into, path)
             return node
 
         return ConfigList(self)
